@@ -50,6 +50,15 @@ type cfgSpec struct {
 	ErrsReader bool     `json:"errs_reader"`
 	IdGen      bool     `json:"idgen"`
 	NoBind     bool     `json:"nobind"` // do not bind the queues up front (clients use Bind ops)
+	Consumers  int      `json:"consumers,omitempty"` // >1: that many workers consume one shared distributed adapter
+	Preload    []preSpec `json:"preload,omitempty"`  // entries already held by adapter 0 when the worker is bound
+	CrashAt    int      `json:"crash_at,omitempty"`  // the process "dies" after that many gated steps
+}
+
+type preSpec struct {
+	Job  int    `json:"job"`
+	Prio int    `json:"prio"`
+	Raw  string `json:"raw,omitempty"` // bad entry kind instead of a job
 }
 
 type schedSpec struct {
@@ -99,15 +108,19 @@ type hQueue struct {
 	close   func() error
 	pending func() int
 	values  func() []any
+	raw     func(kind string, prio int)
 }
 
 type episode struct {
 	prog    *progSpec
 	g       *gate
+	ws      []Worker // all consumers (ws[0] == w)
+	shared  *recAdapter
 	w       Worker
 	ctxCanc context.CancelFunc
 	queues  []*hQueue
 	adapt   []*recAdapter
+	extraQ  []*hQueue
 	bind    func(kind string) *hQueue
 	mu      sync.Mutex
 	jobs    map[int]*hJob
@@ -137,7 +150,9 @@ func resultFor(key int) int { return key*10 + 7 }
 func errFor(key int) error  { return fmt.Errorf("e%d", key) }
 
 // the harness worker function body, shared by the three kinds
-func (ep *episode) wfBody(j Job[int]) (int, error) {
+func (ep *episode) wfBody(j Job[int]) (int, error) { return ep.wfBodyC(j, 0) }
+
+func (ep *episode) wfBodyC(j Job[int], cons int) (int, error) {
 	key := j.Data()
 	st := ""
 	if sp, ok := j.(StatusProvider); ok {
@@ -150,7 +165,7 @@ func (ep *episode) wfBody(j Job[int]) (int, error) {
 			break
 		}
 	}
-	ep.g.point("wf.enter", "job", key, "id", j.ID(), "status", st, "inwf", n)
+	ep.g.point("wf.enter", "job", key, "id", j.ID(), "status", st, "inwf", n, "cons", cons)
 	for i := 0; i < ep.prog.Spin; i++ {
 		runtime.Gosched()
 	}
@@ -327,6 +342,14 @@ func (ep *episode) setup() {
 		b := NewWorker(func(j Job[int]) { ep.wfBody(j) }, cfg...)
 		wb := b.(*workerBinder[int])
 		ep.w = b
+		ep.ws = []Worker{b}
+		binders := []IWorkerBinder[int]{b}
+		for i := 1; i < c.Consumers; i++ {
+			ci := i
+			bi := NewWorker(func(j Job[int]) { ep.wfBodyC(j, ci) }, workerConfigs(c, &episode{})...)
+			ep.ws = append(ep.ws, bi)
+			binders = append(binders, bi)
+		}
 		ep.proj = projOf(ep, wb.worker)
 		ep.g.mu.Lock()
 		ep.g.proj = ep.proj
@@ -366,6 +389,7 @@ func (ep *episode) setup() {
 			case "pfifo", "dfifo":
 				ad := newRecAdapter(ep, len(ep.adapt), false)
 				ep.adapt = append(ep.adapt, ad)
+				ep.preload(ad)
 				hq := &hQueue{kind: kind, values: ad.Values}
 				if kind == "pfifo" {
 					q := b.WithPersistentQueue(ad)
@@ -375,11 +399,18 @@ func (ep *episode) setup() {
 					q := b.WithDistributedQueue(ad)
 					hq.purge, hq.close, hq.pending = q.Purge, q.Close, q.NumPending
 					hq.add = func(key, prio int, id string) (*hJob, bool) { return nil, q.Add(key, jobCfg(id)...) }
+					for _, bi := range binders[1:] {
+						qi := bi.WithDistributedQueue(ad)
+						ep.extraQ = append(ep.extraQ, &hQueue{kind: kind, values: ad.Values, purge: qi.Purge, close: qi.Close, pending: qi.NumPending,
+							add: func(key, prio int, id string) (*hJob, bool) { return nil, qi.Add(key, jobCfg(id)...) }})
+					}
 				}
+				hq.raw = func(kind string, prio int) { ad.enqueueRaw(kind, prio) }
 				return hq
 			case "pprio", "dprio":
 				ad := newRecAdapter(ep, len(ep.adapt), true)
 				ep.adapt = append(ep.adapt, ad)
+				ep.preload(ad)
 				pad := &recPrioAdapter{ad}
 				hq := &hQueue{kind: kind, values: ad.Values}
 				if kind == "pprio" {
@@ -390,7 +421,13 @@ func (ep *episode) setup() {
 					q := b.WithDistributedPriorityQueue(pad)
 					hq.purge, hq.close, hq.pending = q.Purge, q.Close, q.NumPending
 					hq.add = func(key, prio int, id string) (*hJob, bool) { return nil, q.Add(key, prio, jobCfg(id)...) }
+					for _, bi := range binders[1:] {
+						qi := bi.WithDistributedPriorityQueue(pad)
+						ep.extraQ = append(ep.extraQ, &hQueue{kind: kind, values: ad.Values, purge: qi.Purge, close: qi.Close, pending: qi.NumPending,
+							add: func(key, prio int, id string) (*hJob, bool) { return nil, qi.Add(key, prio, jobCfg(id)...) }})
+					}
 				}
+				hq.raw = func(kind string, prio int) { ad.enqueueRaw(kind, prio) }
 				return hq
 			}
 			panic("bad queue kind: " + kind)
@@ -400,6 +437,26 @@ func (ep *episode) setup() {
 		for _, k := range c.Queues {
 			ep.queues = append(ep.queues, ep.bind(k))
 		}
+		// the other consumers' handles of the shared queue come after the bound queues
+		ep.queues = append(ep.queues, ep.extraQ...)
+	}
+	if ep.ws == nil {
+		ep.ws = []Worker{ep.w}
+	}
+}
+
+// preload puts the configured entries into the adapter before anything is bound to it
+func (ep *episode) preload(ad *recAdapter) {
+	if ad.idx != 0 {
+		return
+	}
+	for _, e := range ep.prog.Cfg.Preload {
+		if e.Raw != "" {
+			ad.enqueueRaw(e.Raw, e.Prio)
+			continue
+		}
+		b, _ := newJob(e.Job, jobConfigs{Id: jobID(e.Job)}).Json()
+		ad.enqueue(b, e.Prio)
 	}
 }
 
@@ -540,6 +597,13 @@ func (ep *episode) exec(o opSpec) []any {
 			b.wait()
 		}
 		return []any{"res", "closed", "items", items}
+	case "Raw":
+		hq := q()
+		if hq == nil || hq.raw == nil {
+			return []any{"res", "noqueue"}
+		}
+		hq.raw(o.Kind, o.Prio)
+		return []any{"res", "nil"}
 	case "Purge":
 		q().purge()
 		return []any{"res", "nil"}
@@ -757,16 +821,26 @@ func (ep *episode) quiescentEvent(blocked []string, label string, settled bool) 
 		jst[fmt.Sprint(k)] = h.base.Status()
 	}
 	ep.mu.Unlock()
-	ep.g.emit("harness", label,
+	csub := []uint64{}
+	proc := 0
+	for _, w := range ep.ws {
+		csub = append(csub, w.Metrics().Submitted())
+		proc += w.NumProcessing()
+	}
+	ep.g.emit("harness", label, "csub", csub,
 		"blocked", blocked, "ws", ep.wstatus(), "pending", ep.w.NumPending(), "qpending", qp,
-		"processing", ep.w.NumProcessing(), "idle", ep.w.NumIdleWorkers(), "conc", ep.w.NumConcurrency(),
+		"processing", proc, "idle", ep.w.NumIdleWorkers(), "conc", ep.w.NumConcurrency(),
 		"sub", m.Submitted(), "comp", m.Completed(), "succ", m.Successful(), "fail", m.Failed(),
 		"census", census(), "settled", settled, "jst", jst, "peak", ep.peak.Load(), "errs", ep.errsN.Load(), "st", st)
 }
 
 func runEpisode(prog *progSpec) (res epResult) {
-	gated := prog.Sched.Kind != "free"
+	gated := prog.Sched.Kind != "free" && prog.Sched.Kind != "race"
 	g := newGate(gated)
+	if prog.Sched.Kind == "race" {
+		// race-detector runs: no logging at all, the harness must not add any synchronisation of its own
+		g.active.Store(false)
+	}
 	ep := &episode{prog: prog, g: g, jobs: map[int]*hJob{}, nohandle: map[int]bool{}, jobObjs: map[any]int{}, batches: map[int]*hBatch{}}
 	ep.hcond = sync.NewCond(&ep.mu)
 	// jobs nobody in this program submits have no handle
@@ -798,8 +872,10 @@ func runEpisode(prog *progSpec) (res epResult) {
 		}
 		return 0
 	}
-	VerifHook = g.hook
-	defer func() { VerifHook = nil }()
+	if prog.Sched.Kind != "race" {
+		VerifHook = g.hook
+		defer func() { VerifHook = nil }()
+	}
 	ep.setup()
 	if prog.Cfg.ErrsReader {
 		ch := ep.w.Errs()
@@ -828,7 +904,9 @@ func runEpisode(prog *progSpec) (res epResult) {
 		}
 		// wait for the library to come to rest: identical blocked dumps
 		blocked := waitRest(g, 3*time.Second)
-		ep.quiescentEvent(blocked, "quiescent", false)
+		if prog.Sched.Kind != "race" {
+			ep.quiescentEvent(blocked, "quiescent", false)
+		}
 	} else {
 		ch := newChooser(prog.Sched, maxStep)
 		deadline := time.Now().Add(20 * time.Second)
@@ -880,6 +958,10 @@ func runEpisode(prog *progSpec) (res epResult) {
 			} else {
 				restTicks = 0
 			}
+			if prog.Cfg.CrashAt > 0 && res.Steps >= prog.Cfg.CrashAt {
+				res.Result = "cut"
+				break
+			}
 			if res.Steps >= maxStep || time.Now().After(deadline) {
 				res.Result = "budget"
 				break
@@ -892,7 +974,7 @@ func runEpisode(prog *progSpec) (res epResult) {
 		}
 	}
 	g.shutdown()
-	res.Events = g.log
+	res.Events = g.sortedLog()
 	ep.teardown()
 	return res
 }
@@ -927,11 +1009,13 @@ func (ep *episode) teardown() {
 		if ep.ctxCanc != nil {
 			ep.ctxCanc()
 		}
-		if ep.w.IsStopped() {
-			return
+		for _, w := range ep.ws {
+			if w.IsStopped() {
+				continue
+			}
+			w.Resume()
+			w.Stop()
 		}
-		ep.w.Resume()
-		ep.w.Stop()
 	}()
 	select {
 	case <-done:
